@@ -9,6 +9,7 @@
 #include <cassert>
 #include <condition_variable>
 #include <csignal>
+#include <deque>
 #include <cstdio>
 #include <cstdlib>
 #include <cstring>
@@ -448,8 +449,14 @@ const char *StatusName(uint32_t s, int sig)
           if (enabled & (1U << id)) { if (pick-- == 0) { c = id; break; } }
       }
     } else {
+      // default policy: keep running the same thread; when it cannot continue, the next enabled thread in
+      // round-robin order (delay-bounded style: waiters queue up behind a holder with few deviations)
       if (last != 0 && (enabled & (1U << last))) c = last;
-      else for (int id = 1; id <= g_nthreads; ++id) if (enabled & (1U << id)) { c = id; break; }
+      else
+        for (int k = 1; k <= g_nthreads; ++k) {
+          int id = (last + k - 1) % g_nthreads + 1;
+          if (enabled & (1U << id)) { c = id; break; }
+        }
     }
     Step &s = g_shm->steps[step];
     s.chosen = static_cast<uint8_t>(c);
@@ -529,25 +536,27 @@ void Explore(const Program &prog, Driver &drv, const Options &opt, FILE *out, St
     }
     return;
   }
-  // preemption-bounded depth-first search over scheduling choices
-  std::vector<std::vector<uint8_t>> stack;
-  stack.emplace_back();
-  while (!stack.empty()) {
+  // preemption-bounded search over scheduling choices, in order of the number of deviations from the default
+  // policy (breadth-first over prefixes): when the budget truncates the search, every schedule with few
+  // deviations has been run
+  std::deque<std::vector<uint8_t>> queue;
+  queue.emplace_back();
+  while (!queue.empty()) {
     if (idx >= opt.max_exec) { st.truncated++; break; }
-    auto prefix = std::move(stack.back());
-    stack.pop_back();
+    auto prefix = std::move(queue.front());
+    queue.pop_front();
     auto r = RunOnce(prog, drv, prefix, opt, 0);
     Emit(out, prog, idx++, r);
     st.execs++;
     const auto &s = r.steps;
-    // preemption count of the taken schedule up to each position
     std::vector<int> pre(s.size() + 1, 0);
     for (size_t i = 0; i < s.size(); ++i) {
       int p = 0;
       if (i > 0 && s[i].chosen != s[i - 1].chosen && (s[i].enabled & (1U << s[i - 1].chosen))) p = 1;
       pre[i + 1] = pre[i] + p;
     }
-    for (size_t i = s.size(); i-- > prefix.size();) {
+    if (queue.size() > 400000) continue;  // the budget cannot reach them anyway
+    for (size_t i = prefix.size(); i < s.size(); ++i) {
       if (s[i].flags & 1) continue;
       for (int a = 1; a <= kMaxThreads; ++a) {
         if (a == s[i].chosen || !(s[i].enabled & (1U << a))) continue;
@@ -558,7 +567,7 @@ void Explore(const Program &prog, Driver &drv, const Options &opt, FILE *out, St
         np.reserve(i + 1);
         for (size_t j = 0; j < i; ++j) np.push_back(s[j].chosen);
         np.push_back(static_cast<uint8_t>(a));
-        stack.push_back(std::move(np));
+        queue.push_back(std::move(np));
       }
     }
   }
